@@ -240,7 +240,15 @@ fn eval(_ctx: &Ctx, case: &Case) -> Verdict {
     }
 
     // scaling by a positive constant (a power of two is exact, an arbitrary one is not)
-    for c in [2f64.powi(case.scale_exp), case.scale_arbitrary] {
+    // ... and constants that bring the total to one, and to just beside one (a spectrum that "already
+    // looks normalised" is still a spectrum times a constant)
+    let total = spec.sum();
+    let n_cells = spec.values.len() as f64;
+    let mut constants = vec![2f64.powi(case.scale_exp), case.scale_arbitrary];
+    if total.is_finite() && total > 0.0 && total < 1e12 {
+        constants.extend([1.0 / total, (1.0 + 1e-7) / total, (1.0 - 3e-7 * n_cells) / total, (1.0 + 2e-5) / total]);
+    }
+    for c in constants {
         let scaled = Spec::new(spec.shape.clone(), spec.values.iter().map(|v| v * c).collect());
         for (stat, b) in stats.iter().zip(&base) {
             let v = lib_stat(&scaled, *stat)?;
@@ -398,6 +406,37 @@ fn eval_cli(ctx: &Ctx, case: &CliCase) -> Verdict {
             }
         }
     }
+    // a genome-scale monomorphic class makes the f-statistics tiny (of either sign): what the binary
+    // prints at full precision is what the library computes, sign included
+    {
+        let sel: Vec<Stat> = stats.iter().copied().filter(|s| matches!(s, Stat::F2 | Stat::F3 | Stat::F4)).collect();
+        let total = spec.sum();
+        if !sel.is_empty() && total > 0.0 {
+            for factor in [3.0e5, 4.0e7] {
+                let mut heavy = spec.clone();
+                heavy.values[0] += (total * factor).round();
+                write("heavy.sfs", &heavy);
+                let list = sel.iter().map(|s| s.cli()).collect::<Vec<_>>().join(",");
+                let run = cli::sfs(ctx, &["stat", "-s", &list, "--precision", "20", "heavy.sfs"], Input::Null, &dir);
+                ensure!(run.ok(), "stat -s {list} --precision 20 failed: {}", run.describe());
+                let text = run.stdout_str();
+                let printed: Vec<f64> = text.trim_end().split(',').map(|t| t.parse::<f64>().unwrap_or(f64::NAN)).collect();
+                ensure!(printed.len() == sel.len(), "unexpected stat output {text:?}");
+                for (stat, p) in sel.iter().zip(&printed) {
+                    let want = lib_stat(&heavy, *stat)?;
+                    if want.is_finite() {
+                        ensure!(
+                            (p - want).abs() <= 0.5e-20 + 1e-9 * want.abs(),
+                            "`sfs stat -s {} --precision 20` prints {p:e} for a spectrum with a large monomorphic class, the library computes {want:e} (shape {:?})",
+                            stat.cli(),
+                            case.shape
+                        );
+                        compared += 1;
+                    }
+                }
+            }
+        }
+    }
     // transposition
     if case.shape.len() == 2 {
         write("t.sfs", &spec.permute_axes(&[1, 0]));
@@ -421,14 +460,14 @@ pub fn check(ctx: &Ctx) -> Check {
     let parts: Vec<Box<dyn Part>> = vec![
         Box::new(RandomPart {
             name: "lib-relations",
-            rule: "one-axis (n 3..300), two-axis (unequal lengths, and 3x3), 3- and 4-axis spectra with pairwise different lengths 2..6, and (one case in sixty) spectra of 4 098 .. 8 910 entries in 1..4 axes, non-negative random values: f3/f4 == the documented linear combinations of f2 over the two-population marginals (harness marginalization) of the normalised spectrum; fold with fill 0 (harness model and sfs's own fold) leaves pi, theta, S, Tajima's D, pi_xy, f2, f3, f4, Fst, KING, R0, R1 unchanged; replacing the two monomorphic entries leaves everything except sum/f2/f3/f4 unchanged; transposition leaves f2, Fst, pi_xy, KING, R0, R1 unchanged; scaling by 2^k (exact) and by an arbitrary c > 0 leaves f2/f3/f4/Fst/KING/R0/R1 unchanged and scales sum/S/pi/pi_xy/theta by c; non-trivial = >=4 non-zero interior cells and both monomorphic entries changed by a factor >= 2",
+            rule: "one-axis (n 3..300), two-axis (unequal lengths, and 3x3), 3- and 4-axis spectra with pairwise different lengths 2..6, and (one case in sixty) spectra of 4 098 .. 8 910 entries in 1..4 axes, non-negative random values; scale factors 2^k, arbitrary, and those that bring the total to 1 or to within 1e-7 .. 2e-5 of 1: f3/f4 == the documented linear combinations of f2 over the two-population marginals (harness marginalization) of the normalised spectrum; fold with fill 0 (harness model and sfs's own fold) leaves pi, theta, S, Tajima's D, pi_xy, f2, f3, f4, Fst, KING, R0, R1 unchanged; replacing the two monomorphic entries leaves everything except sum/f2/f3/f4 unchanged; transposition leaves f2, Fst, pi_xy, KING, R0, R1 unchanged; scaling by 2^k (exact) and by an arbitrary c > 0 leaves f2/f3/f4/Fst/KING/R0/R1 unchanged and scales sum/S/pi/pi_xy/theta by c; non-trivial = >=4 non-zero interior cells and both monomorphic entries changed by a factor >= 2",
             cases: ctx.tier.pick(40_000, 3_000_000),
             strategy: Box::new(|| strategy().boxed()),
             eval: Box::new(eval),
         }),
         Box::new(RandomPart {
             name: "cli-relations",
-            rule: "integer spectra through `sfs fold --fill zero | sfs stat` vs `sfs stat` directly, the scaling relation (by an integer 2..9, and by 2^-70 combined with `fold --fill zero --precision 60` for the scale-free statistics) and the transposition relation through `sfs stat --precision 12`, and every statistic requested alone, in a list, and in a differently ordered list of one invocation must print the same value (the normalisation in front of f2/f3/f4/Fst lives in the CLI)",
+            rule: "integer spectra through `sfs fold --fill zero | sfs stat` vs `sfs stat` directly, the scaling relation (by an integer 2..9, and by 2^-70 combined with `fold --fill zero --precision 60` for the scale-free statistics) and the transposition relation through `sfs stat --precision 12`, f2/f3/f4 of the same spectrum under a genome-scale monomorphic class (values of 1e-7 .. 1e-10 of either sign) printed at --precision 20 against the library, and every statistic requested alone, in a list, and in a differently ordered list of one invocation must print the same value (the normalisation in front of f2/f3/f4/Fst lives in the CLI)",
             cases: ctx.tier.pick(800, 20_000),
             strategy: Box::new(|| cli_strategy().boxed()),
             eval: Box::new(eval_cli),
